@@ -600,6 +600,16 @@ func runTrav(sc TravSc, c *kit.Case, clause string) *kit.Violation {
 		cb := e.cbViol
 		e.mu.Unlock()
 		report(cb)
+		// Stop completes once the in-flight queries have returned - not before
+		if e.stopped {
+			select {
+			case <-e.op.Stopped():
+				if n := e.npending(); n > 0 {
+					report(kit.Violatef("C03:stopped-while-queries-in-flight", "Stopped() fired while %d queries of the lookup are still in flight (held by the harness, not yet returned)", n))
+				}
+			default:
+			}
+		}
 		// unexpected / expected stall reports
 		if !e.stopped {
 			if st, _ := e.tryStall(); st {
